@@ -5,10 +5,10 @@ import NV.C10.LemmasSimOps
 
 namespace NV.C10
 
-theorem toPend_coCall (w : World) (o f : Nat) (tag : String) (delay : Int) :
-    toPend (coCall w o f tag delay) =
+theorem toPend_coCall (w : World) (o f : Nat) (tag : String) (delay : Int) (fp : Bool) :
+    toPend (coCall w o f tag delay fp) =
       { owner := o, fn := f, tag := tag, due := vnow w + (if delay < 1 then 1 else delay),
-        handle := ((coSlot w delay + N * (w.unique + 1) : Nat) : Int) } := by
+        handle := ((coSlot w delay + N * (w.unique + 1) : Nat) : Int), fp := fp } := by
   unfold toPend coCall coDue coD vnow
   simp only [Pend.mk.injEq, true_and, and_true]
   omega
@@ -17,13 +17,13 @@ theorem coCot_ge (w : World) : w.cot ≤ coCot w := by
   unfold coCot; split <;> omega
 
 theorem sim_co {tick : Bool} {w : World} {j : JState} (_hw : WheelInv w) (h : SimJ tick w j)
-    (self fn : Nat) (delay : Int) (tag : String) (halive : isDead w self = false) :
-    SimJ tick { (newCallOut w self fn tag delay).1 with
-                hmap := ((self, tag), (newCallOut w self fn tag delay).2) :: (newCallOut w self fn tag delay).1.hmap }
-      (judgeStep j (.co (vnow w) self fn delay tag ((newCallOut w self fn tag delay).2 : Int))) := by
+    (self fn : Nat) (delay : Int) (tag : String) (fp : Bool) (halive : isDead w self = false) :
+    SimJ tick { (newCallOut w self fn tag delay fp).1 with
+                hmap := ((self, tag), (newCallOut w self fn tag delay fp).2) :: (newCallOut w self fn tag delay fp).1.hmap }
+      (judgeStep j (.co (vnow w) self fn delay tag ((newCallOut w self fn tag delay fp).2 : Int) fp)) := by
   rw [newCallOut_snd]
-  have key : ∀ c, InWheel (newCallOut w self fn tag delay).1 c ↔ (c = coCall w self fn tag delay ∨ InWheel w c) :=
-    inWheel_newCallOut self fn tag delay
+  have key : ∀ c, InWheel (newCallOut w self fn tag delay fp).1 c ↔ (c = coCall w self fn tag delay fp ∨ InWheel w c) :=
+    inWheel_newCallOut self fn tag delay fp
   rw [newCallOut_fst] at key ⊢
   have hslot : coSlot w delay < N := slotOf_lt _
   have hh0 : (((coSlot w delay + N * (w.unique + 1) : Nat) : Int) == 0) = false := by
@@ -36,8 +36,8 @@ theorem sim_co {tick : Bool} {w : World} {j : JState} (_hw : WheelInv w) (h : Si
     | true =>
       have := h.allLt _ (List.contains_iff_mem.1 hc)
       omega
-  have hj : judgeStep j (.co (vnow w) self fn delay tag ((coSlot w delay + N * (w.unique + 1) : Nat) : Int)) =
-      { j with pend := toPend (coCall w self fn tag delay) :: j.pend,
+  have hj : judgeStep j (.co (vnow w) self fn delay tag ((coSlot w delay + N * (w.unique + 1) : Nat) : Int) fp) =
+      { j with pend := toPend (coCall w self fn tag delay fp) :: j.pend,
                handles := ((self, tag), ((coSlot w delay + N * (w.unique + 1) : Nat) : Int)) :: j.handles,
                allHandles := ((coSlot w delay + N * (w.unique + 1) : Nat) : Int) :: j.allHandles } := by
     rw [toPend_coCall]
